@@ -29,8 +29,8 @@ package mqtt
 //@   pure
 //@   requires retry != nil
 //@   ensures[C19] err == nil ==> result == nil
-//@   ensures[C19] err == io.EOF ==> result == io.EOF
-//@   ensures[C01,C19] handle: err != nil && err != io.EOF ==> isRetryErr(result) && fresh(asRetryErr(result)) && sameFunc(retryOf(result), retry) &&
+//@   ensures[C01,C02,C07,C11,C12,C18,C19] err == io.EOF ==> result == io.EOF
+//@   ensures[C01,C02,C07,C11,C12,C18,C19] handle: err != nil && err != io.EOF ==> isRetryErr(result) && fresh(asRetryErr(result)) && sameFunc(retryOf(result), retry) &&
 //@        asError(asRetryErr(result).errorInterface) != nil && asError(asRetryErr(result).errorInterface).Err == err
 
 //@ func (*errorWithRetry).Retry
@@ -46,7 +46,7 @@ package mqtt
 //@   pure
 //@   requires c != nil && message != nil
 //@   ensures[C05] c.MaxPayloadLen != 0 && len(message.Payload) > c.MaxPayloadLen ==> result != nil
-//@   ensures[C05] message.QoS > QoS2 ==> result != nil
+//@   ensures[C01,C03,C05,C11,C12] message.QoS > QoS2 ==> result != nil
 //@   ensures[C05] result == nil ==> message.QoS <= QoS2
 
 //@ func (*BaseClient).Publish
